@@ -188,7 +188,7 @@ pub const WIN_SEEDS: &[&[u8]] = &[
 
 pub const NAME_POOL: &[&[u8]] = &[
     b".", b"..", b"a", b"b", b"b.txt", b".hidden", b"a.", b"a..b", b"...", b"..a", b"c.tar.gz",
-    b"\xc3\xa9", b"\xff", b"a:b", b"a?b", b"a|b", b"a\0b", b"x y", b"UNC", b"C:", b"?",
+    b"\xc3\xa9", b"\xff", b"a:b", b"a?b", b"a|b", b"a\0b", b"x y", b"UNC", b"C:", b"?", b"c:index", b"Z:x",
     // a dictionary of the names the library itself knows about (the reserved DOS device names of
     // `constants::windows::RESERVED_DEVICE_NAMES`, in both cases, bare and with an extension) and of
     // characters whose LOW BYTE is a separator / forbidden byte (U+042F, U+015C, U+012F, U+203A …)
